@@ -139,5 +139,166 @@ theorem peek_addIfAbsent (l : Lru) (k k' : String) (v : Nat) (h : l.Room k) :
     rw [peek_putNew l k k' v h.1 hroom, hnone]
     rfl
 
+/-! ### the keys held, and why nothing is evicted while the distinct values fit -/
+
+/-- the keys in recency order -/
+def keys (l : Lru) : List String := l.items.map (·.1)
+
+theorem contains_iff_mem_keys (l : Lru) (k : String) : l.contains k = true ↔ k ∈ l.keys := by
+  unfold contains keys
+  rw [List.any_eq_true, List.mem_map]
+  constructor
+  · rintro ⟨p, hp, he⟩; exact ⟨p, hp, by simpa using he⟩
+  · rintro ⟨p, hp, he⟩; exact ⟨p, hp, by simpa using he⟩
+
+theorem keys_store (l : Lru) (k : String) (v : Nat) : (l.store k v).keys = l.keys := by
+  unfold store keys
+  rw [List.map_map]
+  apply List.map_congr_left
+  intro p _
+  by_cases h : (p.1 == k) = true
+  · have : p.1 = k := by simpa using h
+    simp [this]
+  · have h' : ¬ p.1 = k := by simpa using h
+    simp [h']
+
+theorem store_cap (l : Lru) (k : String) (v : Nat) : (l.store k v).cap = l.cap := rfl
+
+theorem mem_keys_filter_ne (items : List (String × Nat)) (k x : String) :
+    x ∈ (items.filter (fun q => q.1 != k)).map (·.1) ↔ x ∈ items.map (·.1) ∧ x ≠ k := by
+  simp only [List.mem_map, List.mem_filter]
+  constructor
+  · rintro ⟨p, ⟨hp, hne⟩, rfl⟩; exact ⟨⟨p, hp, rfl⟩, by simpa using hne⟩
+  · rintro ⟨⟨p, hp, rfl⟩, hne⟩; exact ⟨p, ⟨hp, by simpa using hne⟩, rfl⟩
+
+theorem nodup_keys_filter (items : List (String × Nat)) (k : String) (h : (items.map (·.1)).Nodup) :
+    ((items.filter (fun q => q.1 != k)).map (·.1)).Nodup :=
+  List.Nodup.sublist (List.Sublist.map _ List.filter_sublist) h
+
+/-- `get` only moves the key to the front -/
+theorem keys_get (l : Lru) (k : String) :
+    (∀ x, x ∈ (l.get k).1.keys ↔ x ∈ l.keys) ∧ (l.keys.Nodup → (l.get k).1.keys.Nodup) := by
+  unfold get keys
+  cases h : l.items.find? (fun p => p.1 == k) with
+  | none => exact ⟨fun _ => Iff.rfl, id⟩
+  | some p =>
+    have hp1 : p.1 = k := by simpa using List.find?_some (p := fun q : String × Nat => q.1 == k) h
+    have hpm : p ∈ l.items := List.mem_of_find?_eq_some h
+    simp only [List.map_cons]
+    constructor
+    · intro x
+      rw [List.mem_cons, mem_keys_filter_ne]
+      constructor
+      · rintro (rfl | ⟨hx, _⟩)
+        · exact List.mem_map.mpr ⟨p, hpm, rfl⟩
+        · exact hx
+      · intro hx
+        by_cases e : x = k
+        · left; rw [e, hp1]
+        · right; exact ⟨hx, e⟩
+    · intro hnd
+      rw [List.nodup_cons]
+      refine ⟨?_, nodup_keys_filter _ _ hnd⟩
+      rw [mem_keys_filter_ne]
+      rintro ⟨_, hne⟩
+      exact hne hp1
+
+/-- an `add_if_absent` with room adds at most the key itself and evicts nothing -/
+theorem keys_addIfAbsent (l : Lru) (k : String) (v : Nat) (h : l.Room k) :
+    (∀ x, x ∈ (l.addIfAbsent k v).1.keys ↔ x = k ∨ x ∈ l.keys) ∧ (l.keys.Nodup → (l.addIfAbsent k v).1.keys.Nodup) := by
+  unfold addIfAbsent
+  by_cases hc : l.contains k = true
+  · simp only [hc, if_true]
+    have hk : k ∈ l.keys := (contains_iff_mem_keys l k).mp hc
+    obtain ⟨g1, g2⟩ := keys_get l k
+    refine ⟨fun x => ?_, g2⟩
+    rw [g1 x]
+    constructor
+    · intro hx; exact Or.inr hx
+    · rintro (rfl | hx)
+      · exact hk
+      · exact hx
+  · have hc' : l.contains k = false := by simpa using hc
+    simp only [hc', Bool.false_eq_true, if_false]
+    have hroom : l.items.length < l.cap := by
+      rcases h.2 with h' | h'
+      · rw [hc'] at h'; cases h'
+      · exact h'
+    have h2 : ¬ l.items.length ≥ l.cap := by omega
+    unfold putNew keys
+    simp only [h.1, if_false, h2, List.map_cons]
+    refine ⟨fun x => List.mem_cons, fun hnd => ?_⟩
+    rw [List.nodup_cons]
+    refine ⟨?_, hnd⟩
+    intro hm
+    have := (contains_iff_mem_keys l k).mpr hm
+    rw [hc'] at this; cases this
+
+theorem addIfAbsent_cap (l : Lru) (k : String) (v : Nat) : (l.addIfAbsent k v).1.cap = l.cap := by
+  unfold addIfAbsent
+  by_cases hc : l.contains k = true
+  · simp only [hc, if_true]; exact get_cap l k
+  · have hc' : l.contains k = false := by simpa using hc
+    simp only [hc', Bool.false_eq_true, if_false]
+    unfold putNew
+    split
+    · rfl
+    · split <;> rfl
+
+/-- a duplicate-free list inside another is no longer than it -/
+theorem nodup_subset_length_le (L U : List String) (hnd : L.Nodup) (hsub : ∀ x ∈ L, x ∈ U) : L.length ≤ U.length := by
+  induction L generalizing U with
+  | nil => simp
+  | cons a L ih =>
+    have ha : a ∈ U := hsub a (by simp)
+    have hnd' := List.nodup_cons.mp hnd
+    have hsub' : ∀ x ∈ L, x ∈ U.erase a := by
+      intro x hx
+      have hxa : x ≠ a := fun e => hnd'.1 (e ▸ hx)
+      exact (List.mem_erase_of_ne hxa).mpr (hsub x (by simp [hx]))
+    have := ih (U.erase a) hnd'.2 hsub'
+    rw [List.length_erase_of_mem ha] at this
+    have hpos : 0 < U.length := List.length_pos_of_mem ha
+    simp only [List.length_cons]
+    omega
+
+/-- **why nothing is evicted**: if the keys held are distinct values of a universe `U` that fits the capacity, every value
+of `U` has room -/
+theorem room_of_universe (l : Lru) (U : List String) (k : String) (hcap : l.cap ≠ 0) (hU : U.length ≤ l.cap)
+    (hnd : l.keys.Nodup) (hsub : ∀ x ∈ l.keys, x ∈ U) (hk : k ∈ U) : l.Room k := by
+  refine ⟨hcap, ?_⟩
+  by_cases hc : l.contains k = true
+  · exact Or.inl hc
+  · right
+    have hnk : k ∉ l.keys := fun hm => hc ((contains_iff_mem_keys l k).mpr hm)
+    have h1 : (k :: l.keys).Nodup := List.nodup_cons.mpr ⟨hnk, hnd⟩
+    have h2 : ∀ x ∈ k :: l.keys, x ∈ U := by
+      intro x hx
+      rcases List.mem_cons.mp hx with rfl | hx
+      · exact hk
+      · exact hsub x hx
+    have := nodup_subset_length_le _ U h1 h2
+    simp only [List.length_cons, keys, List.length_map] at this
+    omega
+
 end Lru
+
+/-- how one counter may change during a check for `arg`: no key but `arg` appears, distinctness and capacity are kept -/
+def LruStep (l l' : Lru) (arg : String) : Prop :=
+  (∀ x ∈ l'.keys, x = arg ∨ x ∈ l.keys) ∧ (l.keys.Nodup → l'.keys.Nodup) ∧ l'.cap = l.cap
+
+theorem LruStep.same (l : Lru) (arg : String) : LruStep l l arg := ⟨fun _ hx => Or.inr hx, id, rfl⟩
+
+theorem LruStep.store {l l' : Lru} {arg : String} (h : LruStep l l' arg) (k : String) (v : Nat) : LruStep l (l'.store k v) arg := by
+  refine ⟨?_, ?_, ?_⟩
+  · rw [Lru.keys_store]; exact h.1
+  · rw [Lru.keys_store]; exact h.2.1
+  · rw [Lru.store_cap]; exact h.2.2
+
+theorem LruStep.add (l : Lru) (arg : String) (v : Nat) (h : l.Room arg) : LruStep l (l.addIfAbsent arg v).1 arg :=
+  ⟨fun x hx => ((Lru.keys_addIfAbsent l arg v h).1 x).mp hx, (Lru.keys_addIfAbsent l arg v h).2, Lru.addIfAbsent_cap l arg v⟩
+
+theorem LruStep.get (l : Lru) (arg : String) : LruStep l (l.get arg).1 arg :=
+  ⟨fun x hx => Or.inr (((Lru.keys_get l arg).1 x).mp hx), (Lru.keys_get l arg).2, Lru.get_cap l arg⟩
+
 end Sentinel
